@@ -5,6 +5,7 @@ import (
 	"context"
 	"errors"
 	"fmt"
+	"hash/fnv"
 	"net"
 	"os"
 	"os/exec"
@@ -139,6 +140,9 @@ type lab struct {
 	panics      int32
 	seq         int32
 	events      []string
+	// the handler scribbles over the Request value it was handed (identifier, source address) once it has what
+	// it needs from it: nothing the server does afterwards may depend on the handler's copy
+	scribble bool
 }
 
 func (l *lab) note(s string) {
@@ -186,9 +190,19 @@ func (l *lab) ServeRADIUS(w radius.ResponseWriter, r *radius.Request) {
 		t.ctxDoneAtEnd = true
 	default:
 	}
+	var resp *radius.Packet
 	if code > 0 {
-		resp := r.Response(radius.Code(code))
+		resp = r.Response(radius.Code(code))
 		resp.Add(18, radius.Attribute("reply"))
+	}
+	if l.scribble {
+		// (a proxy renumbering the packet before relaying it, a middleware recording the NAS address)
+		r.Packet.Identifier ^= 0x5a
+		r.Packet.Attributes = nil
+		r.RemoteAddr = &net.UDPAddr{IP: net.IPv4(203, 0, 113, 9), Port: 9}
+		r.LocalAddr = &net.UDPAddr{IP: net.IPv4(203, 0, 113, 10), Port: 10}
+	}
+	if resp != nil {
 		if err := w.Write(resp); err != nil {
 			l.note("write-error:" + err.Error())
 		}
@@ -305,6 +319,11 @@ func runServerScenario(skipVerify bool, secretSpec string, cmds []string, w *os.
 	l := newLab(nconn, skipVerify, secrets)
 	for _, c := range l.conns {
 		c.closeErr = (len(cmds)+len(secretSpec))%2 == 1
+	}
+	{
+		h := fnv.New32a()
+		h.Write([]byte(strings.Join(cmds, ",")))
+		l.scribble = h.Sum32()%2 == 0
 	}
 	radius.VerifSetHook(l.hook)
 	defer radius.VerifSetHook(nil)
@@ -1138,6 +1157,26 @@ func genC06(g *Gen, tier string, emit func(op string, args ...string)) {
 			cmds = append(cmds, "D0:0:"+hx(accessRequest(77, "alive")), "d20", "F20:2", "Z")
 			emit("scenario", "0", sec, strings.Join(cmds, ","))
 			emit("scenario", "1", sec, strings.Join(cmds, ","))
+		}
+		// three hundred refused datagrams (runts, wrong-secret accounting requests, unknown peers), then a valid
+		// request: whatever the server keeps per datagram must be given back for refused ones as well
+		{
+			cmds := []string{"S0", "s0"}
+			for k := 0; k < 300; k++ {
+				var junk []byte
+				switch k % 3 {
+				case 0:
+					junk = g.RandBytes(g.Pick(0, 1, 19))
+				case 1:
+					junk = accountingRequest(byte(k), []byte("wrong"))
+				default:
+					junk = g.RandBytes(g.Pick(20, 24))
+					junk[0], junk[2], junk[3] = 4, 0, byte(len(junk))
+				}
+				cmds = append(cmds, "D0:"+itoa(k%2)+":"+hx(junk), "d"+itoa(k))
+			}
+			cmds = append(cmds, "D0:0:"+hx(accessRequest(78, "alive")), "d300", "F300:2", "Z")
+			emit("scenario", "0", sec, strings.Join(cmds, ","))
 		}
 		for _, peers := range [][]int{{0, 1}, {1, 0}, {0, 1, 0}, {0, 0}} {
 			var pre []string
